@@ -29,7 +29,8 @@ from pymbolic.mapper import IdentityMapper
 from pytools import UniqueNameGenerator
 
 from dagrt.codegen.dag_ast import (
-    ASTIdentityMapper, Block, IfThen, StatementWrapper, get_statements_in_ast)
+    ASTIdentityMapper, Block, ForLoop, IfThen, IfThenElse, StatementWrapper,
+    get_statements_in_ast)
 
 
 __doc__ = """
@@ -82,11 +83,42 @@ class ASTStatementRewriter(ASTIdentityMapper):
         raise NotImplementedError()
 
 
+def get_variables_in_ast_nodes(ast):
+    """Return the names used by the conditions and loops of *ast* (as opposed
+    to the ones used by its statements)."""
+    from dagrt.utils import get_variables
+
+    if isinstance(ast, IfThen):
+        return get_variables(ast.condition) | get_variables_in_ast_nodes(ast.then)
+    elif isinstance(ast, IfThenElse):
+        return (get_variables(ast.condition)
+                | get_variables_in_ast_nodes(ast.then)
+                | get_variables_in_ast_nodes(ast.else_))
+    elif isinstance(ast, ForLoop):
+        return (frozenset([ast.loop_var_name])
+                | get_variables(ast.lbound) | get_variables(ast.ubound)
+                | get_variables_in_ast_nodes(ast.body))
+    elif isinstance(ast, Block):
+        result = frozenset()
+        for child in ast.children:
+            result = result | get_variables_in_ast_nodes(child)
+        return result
+    else:
+        return frozenset()
+
+
 def apply_statement_rewriter(rewriter_cls, phase_ast):
     statements = list(get_statements_in_ast(phase_ast))
+    var_name_gen = get_var_name_generator(statements)
+
+    # Guards and loops are nodes of the AST, not statements: keep the new
+    # names clear of the variables they use as well.
+    var_name_gen.add_names(
+            get_variables_in_ast_nodes(phase_ast), conflicting_ok=True)
+
     rewriter = rewriter_cls(
             stmt_id_gen=get_stmt_id_generator(statements),
-            var_name_gen=get_var_name_generator(statements))
+            var_name_gen=var_name_gen)
 
     return rewriter(phase_ast)
 
